@@ -160,9 +160,13 @@ func (b *Bytes) store(addr model.Addr, bs []byte) int {
 	// Shift blocks behind the new one; copy handles overlapping slices.
 	copy(b.blocks[idx+1:], b.blocks[idx:])
 
+	// The block must own its bytes, bs belongs to the constant written.
+	bytes := make([]byte, end-addr)
+	copy(bytes, bs)
+
 	b.blocks[idx] = byteBlock{
 		begin: addr,
-		bytes: bs[:end-addr],
+		bytes: bytes,
 	}
 
 	return int(end - addr)
